@@ -34,6 +34,9 @@ def main(argv):
                 print('HARNESS-ERROR property=%s oracle self-validation failed: %s' % (prop_id, msg))
                 return 2
         obs = mod.obligations(tier, seed)
+        if os.environ.get('VF_ONLY'):   # development only: run the obligations whose name matches
+            import re
+            obs = [o for o in obs if re.search(os.environ['VF_ONLY'], o.name)]
     except Exception as e:  # noqa
         import traceback
         traceback.print_exc()
